@@ -50,14 +50,32 @@ DTYPES = {"int": "<i4", "long long": "<i8", "double": "<f8"}
 USER_SHAPED = ("shape_", "pts_", "points_", "polygon_", "inside_", "mask_", "mismatch", "cells_", "lev_", "txx_",
                "wronglen", "fin_mismatch", "nan_mismatch", "inf_mismatch", "huge_mismatch", "neg_mismatch", "zero_mismatch")
 
+# pyx functions whose return value is the kernel's error code (0 = success) and is modelled as such
+CODE_FNS = {"aggregate", "flathomogen", "islin", "var2h", "eckhardt", "armodel_sim", "armodel_residual", "ensrank",
+            "ad_test", "pareto_front", "olsleverage", "coord2cell", "cell2coord", "cell2rowcol", "slice", "neighbours",
+            "upstream", "downstream", "delineate_area", "delineate_boundary", "exclude_zero_area_boundary",
+            "delineate_river", "accumulate", "intersect", "voronoi", "slope", "points_inside_polygon",
+            "delineate_flowpathlengths_in_catchment", "add1month", "add1day"}
+# ... and whose Python wrapper raises when it is not 0 (`dscore` ignores the code of `ensrank`)
+RAISING_FNS = CODE_FNS - {"ensrank", "olsleverage", "add1month", "add1day"}
+
+
+def _approx_oracle(rec):
+    """recorded calls whose model oracle is not exact (sort order with NaNs): the return code is not compared"""
+    if rec["fn"] == "ad_test":
+        a = rec["args"][0]
+        return isinstance(a, dict) and any(isinstance(x, str) for x in a["v"])
+    return False
+
+
 PROVED = ["c_aggregate", "c_flathomogen", "c_islin", "c_eckhardt", "c_var2h", "c_combi", "c_dateutils_daysinmonth",
           "c_dateutils_dayofyear", "c_dateutils_add1month", "c_dateutils_add1day", "c_dateutils_getdate",
           "c_dateutils_comparedates", "c_armodel_sim", "c_armodel_residual", "c_crps", "c_ensrank", "c_ad_test (ADtest)",
           "c_paretofront", "c_olsleverage", "c_coord2cell", "c_cell2coord", "c_cell2rowcol", "c_neighbours",
           "c_upstream", "c_downstream", "c_accumulate", "c_slope", "c_slice", "c_intersect", "c_voronoi", "c_inside",
           "c_exclude_zero_area_boundary", "c_delineate_river", "c_delineate_flowpathlengths_in_catchment",
-          "c_delineate_boundary", "c_delineate_area"]
-ORACLE_ONLY = ["c_dateutils_isleapyear (no buffer, no divisor that can be 0)",
+          "c_delineate_boundary", "c_delineate_area", "c_dateutils_isleapyear"]
+ORACLE_ONLY = [
                "qsort / libm / the Cython-generated glue"]
 
 
@@ -220,11 +238,11 @@ def api_part(ctx, specs, externs, asan_dir, workroot):
     results, info = run_parallel(probes, asan_dir, C.REPO, workroot / "api", ctx.scale(4, 6),
                                  per_probe_timeout=60.0, batch_timeout=ctx.scale(600.0, 1500.0))
     t_run = time.time() - t0
-    bnd = Boundary(specs, externs)
-    lines, owners = [], []
+    bnd = Boundary(specs, externs) if specs is not None else None
+    lines, owners, recs = [], [], []
     nomodel = 0
     for i, r in enumerate(results):
-        for rec in r.get("calls", []):
+        for rec in (r.get("calls", []) if bnd is not None else []):
             if bnd.pyalloc(rec) is False and not probes[i]["cls"].split("/")[-1].startswith(USER_SHAPED):
                 ctx.disagree(f"PyAlloc: the arrays handed to c_hydrodiy.{rec['fn']} are not sized the way the model of "
                              "the Python wrapper says (Lemmas/C05Wrap.lean, harness/c05_model.py PYALLOC)",
@@ -245,15 +263,32 @@ def api_part(ctx, specs, externs, asan_dir, workroot):
             ext = {b: P[pn] for b, pn in pairs}
             lines.append(M.request(model, pairs, toks, ext))
             owners.append(i)
+            recs.append(rec)
     t_build = time.time() - t0 - t_run
     replies = ctx.lean.ask(lines) if lines else []
     t_driver = time.time() - t0 - t_run - t_build
     verdict = {}
-    for i, rep, ln in zip(owners, replies, lines):
+    ncodes = 0
+    for i, rep, ln, rec in zip(owners, replies, lines, recs):
         v = verdict.setdefault(i, {"n": 0, "bad": []})
         v["n"] += 1
         if not rep.startswith("ok"):
             v["bad"].append((rep, ln[:300]))
+        elif rec["fn"] in CODE_FNS and "ret" in rec and not _approx_oracle(rec):
+            # glue: the return code class of the kernel (0 / error, what the Python wrapper turns into ValueError)
+            ncodes += 1
+            mcode = int(rep.split()[1])
+            if (mcode == 0) != (rec["ret"] == 0):
+                ctx.disagree(f"return code: c_hydrodiy.{rec['fn']} returned {rec['ret']} where the model returns "
+                             f"{'0' if mcode == 0 else 'an error code'}",
+                             {"probe": probes[i], "step": results[i].get("step"), "model_request": ln[:400]})
+    for i, (p, r) in enumerate(zip(probes, results)):
+        # glue: an error code of a kernel whose wrapper checks it must surface as a Python exception
+        if not p["entry"].startswith(("h.", "cd.", "cs.")) and r["ret"] == "ok":
+            bad = [c for c in r.get("calls", []) if c["fn"] in RAISING_FNS and c.get("ret", 0) > 0]
+            if bad:
+                ctx.disagree(f"error handling: c_hydrodiy.{bad[0]['fn']} returned {bad[0]['ret']} and {p['entry']} "
+                             "returned normally", {"probe": p})
     entries = {}
     for i, (p, r) in enumerate(zip(probes, results)):
         if r["ret"] == "skipped":
@@ -277,17 +312,20 @@ def api_part(ctx, specs, externs, asan_dir, workroot):
         if not clean:
             rep = r["reports"][0] if r["reports"] else None
             sig = f"{p['entry']}/{branch_of(rep, r.get('signal'))}/{p.get('pred', p['cls'])}"
+            if p["entry"].startswith("h.") and r.get("step"):
+                sig += "@" + r["step"]
             what = (f"{p['entry']}: " + (f"{rep['kind']} {rep.get('access', '')} in {rep['func']} at {rep['line']} "
                                          f"{rep.get('msg', '')}" if rep else f"interpreter ended with {r.get('signal')}")
                     + f" (result of the call: {r['ret']})")
-            ctx.finding(sig, what, {"probe": p, "reports": r["reports"][:2], "signal": r.get("signal"),
+            ctx.finding(sig, what, {"probe": p, "history_step": r.get("step"), "reports": r["reports"][:2],
+                                    "signal": r.get("signal"),
                                     "model": "safe" if not v["bad"] else v["bad"][0]})
         if clean != (not v["bad"]):
             ctx.disagree("outcome: the sanitizers and the model disagree on whether the call is memory-safe",
                          {"probe": p, "sanitizer_clean": clean, "model": v["bad"][:2] or "safe",
                           "reports": r["reports"][:2], "signal": r.get("signal")})
     ctx.extra["api"] = {"probes": len(probes), "corpus": ncorpus, "kernel_calls_modelled": len(lines),
-                        "kernel_calls_without_model": nomodel, "workers": info["workers"],
+                        "kernel_calls_without_model": nomodel, "return_codes_compared": ncodes, "workers": info["workers"],
                         "worker_deaths": info["deaths"], "wall_s": round(time.time() - t0, 1),
                         "run_s": round(t_run, 1), "requests_s": round(t_build, 1), "driver_s": round(t_driver, 1),
                         "loaded": info.get("loaded"), "entries": entries}
@@ -297,8 +335,12 @@ def api_part(ctx, specs, externs, asan_dir, workroot):
                 raise RuntimeError(f"C05: {m} was imported from {f}, not from the sanitizer build {asan_dir}")
 
 
-def tight_part(ctx, externs, asan_dir, reclib, workroot):
+def tight_part(ctx, externs, asan_dir, reclib, workroot, called=()):
     cases = T.gen_cases(ctx.rng, lambda q, t: 2 * ctx.scale(q, t))
+    have = {c["callee"] for c in cases}
+    for k in sorted(called):
+        if any(q["ptr"] for q in externs[k]["params"]) and k not in have:
+            ctx.disagree("completeness: no tightness case for a kernel with pointer parameters", {"kernel": k})
     t0 = time.time()
     reqs, lines = [], []
     for c in cases:
@@ -382,8 +424,56 @@ def tight_part(ctx, externs, asan_dir, reclib, workroot):
                               "per_kernel": stats, "noshrink": {k: sorted(v) for k, v in T.NOSHRINK.items()}}
 
 
+# kernel (callee of a wrapper) -> its `K_safe` theorem in Props/C05.lean
+KERNEL_THEOREM = {
+    "c_combi": "combi_safe", "c_dateutils_isleapyear": "isleapyear_safe", "c_dateutils_daysinmonth": "daysinmonth_safe",
+    "c_dateutils_dayofyear": "dayofyear_safe", "c_dateutils_add1month": "add1month_safe",
+    "c_dateutils_add1day": "add1day_safe", "c_dateutils_comparedates": "comparedates_safe",
+    "c_dateutils_getdate": "getdate_safe", "c_aggregate": "aggregate_safe", "c_flathomogen": "flathomogen_safe",
+    "c_islin": "islin_safe", "c_var2h": "var2h_safe", "c_eckhardt": "eckhardt_safe", "c_olsleverage": "olsleverage_safe",
+    "c_armodel_sim": "armodelSim_safe", "c_armodel_residual": "armodelResidual_safe", "c_crps": "crps_safe",
+    "c_ensrank": "ensrank_safe", "c_ad_test": "adTest_safe", "c_paretofront": "paretofront_safe",
+    "c_coord2cell": "coord2cell_safe", "c_cell2coord": "cell2coord_safe", "c_cell2rowcol": "cell2rowcol_safe",
+    "c_slice": "slice_safe", "c_neighbours": "neighbours_safe", "c_upstream": "upstream_safe",
+    "c_downstream": "downstream_safe", "c_delineate_area": "delineateArea_safe",
+    "c_delineate_boundary": "delineateBoundary_safe", "c_exclude_zero_area_boundary": "excludeZeroArea_safe",
+    "c_delineate_river": "delineateRiver_safe", "c_accumulate": "accumulate_safe", "c_intersect": "intersect_safe",
+    "c_voronoi": "voronoi_safe", "c_slope": "slope_safe", "c_inside": "inside_safe",
+    "c_delineate_flowpathlengths_in_catchment": "flowpathlengths_safe",
+}
+
+
+def completeness(ctx, specs, externs):
+    """every wrapper of the .pyx files that reaches a kernel must have: a footprint model the driver runs (request
+    builder), a `K_safe` theorem, a `<wrapper>_wrapper` obligation, and (kernels with pointer parameters) tightness
+    cases. A kernel or wrapper added to the extension modules without them is reported — never skipped."""
+    thms = {t.split(".")[-1] for t in (ctx.lean.theorems or ctx.lean.theorem_names())}
+    missing = []
+    for sp in specs:
+        k = sp["callee"]
+        if k not in M.BUILDERS:
+            missing.append(f"{sp['name']} -> {k}: no footprint model request (harness/c05_model.py BUILDERS)")
+        if KERNEL_THEOREM.get(k) not in thms:
+            missing.append(f"{sp['name']} -> {k}: no kernel theorem ({KERNEL_THEOREM.get(k)})")
+        if sp["name"] + "_wrapper" not in thms:
+            missing.append(f"{sp['name']}: no wrapper obligation `{sp['name']}_wrapper` in Props/C05.lean")
+    called = {sp["callee"] for sp in specs}
+    unused = sorted(set(externs) - called)
+    ctx.extra["wrappers"] = {"reaching_a_kernel": len(specs), "kernels": len(called), "externs_never_called": unused,
+                             "missing": missing}
+    for m in missing:
+        ctx.disagree("completeness: a wrapper / kernel of the extension modules has no model or obligation", {"missing": m})
+    return called
+
+
 def body(ctx):
-    _, specs, externs = X.render(C.REPO)
+    try:
+        _, specs, externs = X.render(C.REPO)
+    except X.PyxError as e:
+        # the translator refuses the .pyx (regen has replaced Generated/PyxSpec.lean by a file that does not elaborate:
+        # every wrapper obligation is broken); the sanitizer oracle still runs, without the model correspondence
+        ctx.disagree("translator: harness/pyx2spec.py cannot parse the .pyx files any more", {"error": str(e)})
+        specs, externs = None, None
     t0 = time.time()
     asan_dir, ainfo = C.native_build(C.REPO, asan=True)
     reclib, cached = build_rec_lib(C.REPO)
@@ -397,8 +487,10 @@ def body(ctx):
         ctx.assumptions.append("the .pyx differs from the one the vendored Cython C was generated from: "
                                + ", ".join(ainfo["stale_pyx"]))
     workroot = C.BUILD / f"c05-run-{os.getpid()}"
+    called = completeness(ctx, specs, externs) if specs is not None else set()
     api_part(ctx, specs, externs, asan_dir, workroot)
-    tight_part(ctx, externs, asan_dir, reclib, workroot)
+    if externs is not None:
+        tight_part(ctx, externs, asan_dir, reclib, workroot, called)
     if not ctx.findings and not ctx.disagreements:
         shutil.rmtree(workroot, ignore_errors=True)     # status files and sanitizer logs are kept only for a failure
     else:
